@@ -809,7 +809,46 @@ pub fn c08_input_fills_buffer_exactly(rec: &mut Rec, rng: &mut Rng, total: usize
     sim.w.teardown();
 }
 
+/// a well-formed request that trickles in: its head and body arrive in `pieces` small writes with a poll after each
+/// (a slow but perfectly well-behaved client) — it is yielded once, when complete, and answered
+pub fn c08_request_in_many_pieces(rec: &mut Rec, rng: &mut Rng, pieces: usize) {
+    rec.case("request-in-many-pieces");
+    rec.nontrivial();
+    let mut sim = Sim::new(rec, Cfg::base("C08"));
+    let a = sim.connect(rec);
+    sim.poll(rec);
+    let j = sim.plans[a].next_req;
+    sim.plans[a].next_req += 1;
+    let t = tag(a, j);
+    let body_len = pieces * 2;
+    let mut bytes = format!("PUT {} HTTP/1.1\r\nContent-Length: {}\r\n\r\n", t, body_len).into_bytes();
+    bytes.extend_from_slice(&gen::body_bytes(rng, body_len));
+    let step = (bytes.len() + pieces - 1) / pieces;
+    let mut ok = true;
+    for ch in bytes.chunks(step.max(1)) {
+        ok &= sim.w.send(rec, a, ch);
+        sim.poll(rec);
+    }
+    if ok {
+        sim.plans[a].sent.push(t);
+    }
+    for _ in 0..3 {
+        sim.poll(rec);
+    }
+    while !sim.w.held.is_empty() {
+        sim.respond(rec, rng, 0);
+    }
+    drain_and_check_supplied(rec, &mut sim, "C08");
+    sim.settle(rec, rng);
+    common_checks(rec, &mut sim, "C08");
+    check_yield_once(rec, &sim);
+    sim.w.teardown();
+}
+
 pub fn c08(rec: &mut Rec, rng: &mut Rng, thorough: bool) {
+    for pieces in [120usize, if thorough { 1500 } else { 260 }] {
+        c08_request_in_many_pieces(rec, rng, pieces);
+    }
     for total in [1024usize, 2048, 3072] {
         c08_input_fills_buffer_exactly(rec, rng, total);
     }
